@@ -140,7 +140,7 @@ PROPS = {
         "corr": ["Corr/RunTypes", "Corr/RunGraph"],
         "engines": [
             {"engine": "types", "quick": 500, "thorough": 6000, "args": ["--kinds", "validate"]},
-            {"engine": "graph", "name": "graph16", "quick": 300, "thorough": 5000},
+            {"engine": "graph", "name": "graph16", "quick": 700, "thorough": 12000},
         ],
         "rule": "boundary grid over number of solutions {0,1,2,3,100,101}, slots {0,1,100,101}, slot words {0,3,10000,10001}, total mutations "
                 "{999,1000,1001}, key words {1000,1001}, value words {10000,10001}, duplicate key within / across solutions; predicates with "
@@ -169,7 +169,7 @@ PROPS = {
     },
     "C01": {
         "level_text": "Coq theorems about the code-shaped model of the predicate-graph checker and an independent reference semantics (Spec/GraphRef.v): the level sort succeeds exactly on acyclic graphs, lists every node once with every edge going to a strictly later level, and never panics or runs out of fuel; malformed or cyclic graphs are rejected with the invalid-graph error before a single program is run; every node is run exactly once after all its parents on exactly the concatenation of their outputs in ascending parent order (nothing dropped by the filter_map); the verdict, gas and data outputs equal the reference; the first reported failing node is a genuine failure; the verdict, gas and data are invariant under renumberings that keep the order of co-parents; the two run modes over a shared cache evaluate each node exactly once. Correspondence: random DAGs with non-topological numberings, multi-edges, diamonds, raw malformed/cyclic/dangling encodings, 1-3 solutions, both collect_all values; the run recorder hook reports every program run with its inputs; the reference semantics is evaluated against the implementation's verdict, gas, returned set and runs.",
-        "properties": ["Properties/C01", "Properties/TwoModeThms", "Properties/C01Renumber"],
+        "properties": ["Properties/C01", "Properties/TwoModeThms", "Properties/C01Renumber", "Properties/C01Set"],
         "corr": ["Corr/RunGraph"],
         "engines": [{"engine": "graph", "quick": 900, "thorough": 20000},
                     {"engine": "helpers", "quick": 800, "thorough": 20000}],
